@@ -12,14 +12,15 @@ func init() {
 		ID:         "C15",
 		Level:      "other",
 		Technique:  "CFG dominance of decode sites by Reset (or the Merge test), struct-shape rule over every generated Reset method and its generator emission site, completeness of the reflective reset (static)",
-		Explain:    "Decides structural necessary conditions of `Unmarshal and Reset erase all prior state`: (1) in proto.UnmarshalOptions.unmarshal every decode site (fast-path Unmarshal method, slow path) is dominated by Reset(m) or by the true edge of o.Merge, and the Merge test is not preceded by the `o.Merge = true` normalisation; in protojson and prototext every decode site is dominated by proto.Reset; (2) every generated Reset method in every .pb.go of the loaded packages begins by assigning the empty composite literal of its own type to *x (which clears every field, presence word, lazy info, unknown bytes, extension map and size cache by construction), and the generator emits exactly that statement; (3) the reflective resetMessage clears every declared field, every ranged (extension) field and the unknown bytes.",
-		NotCovered: "equality with a fresh decode on concrete histories; state kept outside the message struct (weak/legacy caches); Reset methods written by hand on non-generated types.",
+		Explain:    "Decides structural necessary conditions of `Unmarshal and Reset erase all prior state`: (1) in proto.UnmarshalOptions.unmarshal every decode site (fast-path Unmarshal method, slow path) is dominated by Reset(m) or by the true edge of o.Merge, and the Merge test is not preceded by the `o.Merge = true` normalisation; in protojson and prototext every decode site is dominated by proto.Reset; (2) every generated Reset method in every .pb.go of the loaded packages begins by assigning the empty composite literal of its own type to *x (which clears every field, presence word, lazy info, unknown bytes, extension map and size cache by construction), and the generator emits exactly that statement; (3) the reflective resetMessage clears every declared field, every ranged (extension) field and the unknown bytes; (4) the hand-written Reset of dynamicpb.Message assigns every content field of its struct on every path.",
+		NotCovered: "equality with a fresh decode on concrete histories; state kept outside the message struct (weak/legacy caches); Reset methods written by hand outside the library.",
 		Quick:      all("./proto", "./encoding/protojson", "./encoding/prototext", "./cmd/protoc-gen-go/internal_gengo", "./types/..."),
 		Thorough:   all("./..."),
 		Run: func(c *Ctx) {
 			c.ruleResetFirst("R-RESET-FIRST")
 			c.ruleGenResetShape("R-GEN-RESET-SHAPE", 60)
 			c.ruleResetComplete("R-RESET-COMPLETE")
+			c.ruleResetHand("R-RESET-HAND")
 		},
 	})
 }
@@ -291,4 +292,82 @@ func (c *Ctx) ruleResetComplete(rule string) {
 		}
 	}
 	R.Check(unk != nil && uncond(unk), rule, fi.Key+" unknown bytes", P.Pos(fi.Decl), "m.SetUnknown(nil) on every path", "unknown fields are not cleared on every path")
+}
+
+// R-RESET-HAND: hand-written Reset methods of message implementations in the
+// library assign every content-carrying field of their struct.
+func (c *Ctx) ruleResetHand(rule string) {
+	R, P := c.R, c.P
+	R.Rule(rule, "every hand-written Reset of a library message implementation assigns each field of its struct (exception table: immutable identity fields); a field left untouched survives Reset and non-Merge Unmarshal", 3)
+	for _, e := range []struct {
+		key    string
+		exempt map[string]string
+	}{
+		{"types/dynamicpb.(*Message).Reset", map[string]string{"typ": "the message's type: immutable identity, not content"}},
+	} {
+		if P.Pkg("types/dynamicpb") == nil {
+			continue
+		}
+		fi := c.need(rule, e.key)
+		if fi == nil {
+			continue
+		}
+		info := fi.Info()
+		sig := fi.Obj.Type().(*types.Signature)
+		pt, ok := sig.Recv().Type().(*types.Pointer)
+		if !ok {
+			R.Unk(rule, e.key, P.Pos(fi.Decl), "receiver is not a pointer")
+			continue
+		}
+		st, ok := pt.Elem().Underlying().(*types.Struct)
+		if !ok {
+			R.Unk(rule, e.key, P.Pos(fi.Decl), "receiver is not a struct pointer")
+			continue
+		}
+		assigned := map[string]bool{}
+		whole := false
+		g := fi.CFG()
+		walk(fi.Decl.Body, func(n ast.Node) bool {
+			as, ok := n.(*ast.AssignStmt)
+			if !ok {
+				return true
+			}
+			for _, l := range as.Lhs {
+				if se, ok := unparen(l).(*ast.SelectorExpr); ok {
+					if id, ok := unparen(se.X).(*ast.Ident); ok && objOf(info, id) == recvObj(info, fi) {
+						// unconditional: no return reachable from entry without passing this assignment
+						found, _ := g.Forward(g.Entry(), Search{
+							Target:  func(x ast.Node) bool { _, isRet := x.(*ast.ReturnStmt); return isRet },
+							Barrier: func(x ast.Node) bool { return x == ast.Node(as) },
+						})
+						if !found {
+							assigned[se.Sel.Name] = true
+						}
+					}
+				}
+				if st2, ok := unparen(l).(*ast.StarExpr); ok {
+					if id, ok := unparen(st2.X).(*ast.Ident); ok && objOf(info, id) == recvObj(info, fi) {
+						whole = true
+					}
+				}
+			}
+			return true
+		})
+		for i := 0; i < st.NumFields(); i++ {
+			f := st.Field(i).Name()
+			construct := e.key + " field " + f
+			if why, ok := e.exempt[f]; ok {
+				R.Exempt(rule, construct, P.Pos(fi.Decl), why)
+				continue
+			}
+			R.Check(whole || assigned[f], rule, construct, P.Pos(fi.Decl), "assigned on every path", "Reset does not assign this field on every path: its content survives Reset and non-Merge Unmarshal")
+		}
+	}
+}
+
+func recvObj(info *types.Info, fi *FuncInfo) types.Object {
+	if fi.Decl.Recv == nil || len(fi.Decl.Recv.List) == 0 || len(fi.Decl.Recv.List[0].Names) == 0 {
+		return nil
+	}
+	return info.Defs[fi.Decl.Recv.List[0].Names[0]]
 }
